@@ -65,16 +65,23 @@ wstran_pipe_send_cb(void *arg)
 	nni_aio *uaio;
 
 	nni_mtx_lock(&p->mtx);
+	nng_err  rv;
 	uaio          = p->user_txaio;
 	p->user_txaio = NULL;
 
-	if (uaio != NULL) {
-		int rv;
-		if ((rv = nni_aio_result(taio)) != 0) {
+	if ((rv = nni_aio_result(taio)) != 0) {
+		// The message was not consumed.  Hand it back to the
+		// submitter, or release it if nobody is waiting anymore.
+		nni_msg *msg = nni_aio_get_msg(taio);
+		nni_aio_set_msg(taio, NULL);
+		if (uaio != NULL) {
+			nni_aio_set_msg(uaio, msg);
 			nni_aio_finish_error(uaio, rv);
-		} else {
-			nni_aio_finish(uaio, 0, 0);
+		} else if (msg != NULL) {
+			nni_msg_free(msg);
 		}
+	} else if (uaio != NULL) {
+		nni_aio_finish(uaio, 0, 0);
 	}
 	nni_mtx_unlock(&p->mtx);
 }
